@@ -7,7 +7,7 @@ from ..runner import Case, Property
 class C19(Property):
     id = "C19"
     lean_module = "RosuModel.Props.C19Full"   # imports Props/C19Curve.lean (→ Props/C19Lipschitz.lean, Props/C19.lean, Props/C16Surplus.lean) and Props/C19Ieee.lean; namespace Rosu.C19
-    theorem_modules = ['RosuModel.Props.C19Curve', 'RosuModel.Props.C19Ieee', 'RosuModel.Props.C19IeeePos', 'RosuModel.Props.C19IeeeBound']   # files whose top-level theorems are all audited
+    theorem_modules = ['RosuModel.Props.C19Curve', 'RosuModel.Props.C19Ieee', 'RosuModel.Props.C19IeeePos', 'RosuModel.Props.C19IeeeBound', 'RosuModel.Props.C19IeeeErr']   # files whose top-level theorems are all audited
     namespace = "Rosu.C19"
     design_ref = "5.19"
     level_text = (
@@ -36,7 +36,9 @@ class C19(Property):
         "Model tied to the code bit-for-bit "
         "(positions, distances, indices, also for NaN / unsorted lengths).")
     technique = "Lean 4 proof (generic arithmetic, structural) + bit-exact differential correspondence + independent oracle"
-    required_theorems = ["progress_clamped", "progress_below_clamped", "progress_above_clamped", "position_clamped",
+    required_theorems = ["interpolate_err_float32", "interpolate_on_segment_float32", "segment_length_err_float32", "segment_length_underflow_example", "natural_length_err_float",
+                         "natural_length_err_float_linear", "position_lipschitz_segment_float32", "position_arc_segment_float32", "chord_le_booked_float",
+                         "progress_clamped", "progress_below_clamped", "progress_above_clamped", "position_clamped",
                          "progress_to_dist_linear", "empty_path_default", "interpolate_idx_zero", "interpolate_beyond_last",
                          "interpolate_total", "positionAt_total", "bsLoop_inv", "bs_probe_in_range", "idxOfDist_le", "bsLoop_fuel",
                          "interpolate_degenerate", "interpolate_formula", "position_first_of_idx_zero",
@@ -50,6 +52,13 @@ class C19(Property):
                          # Props/C19Ieee.lean: the order part of PosLaws for the driver's Float; the search finds an exact hit for IEEE doubles
                          "posLaws_order_float", "bsLoop_hit_ieee", "idxOfDist_hit_ieee", "idxOfDist_hit_float"]
     partial_theorems = {
+        "interpolate_err_float32 / position_lipschitz_segment_float32": "Props/C19IeeeErr.lean (sixth session, wave 6): the ERROR side of C19 on IEEE floats. interpolate_err_float32 — the position "
+            "interpolate_vertices returns inside a non-degenerate segment is within interpBound = 7/32 + 2^-20 px per coordinate of the exact convex combination of the two vertices (seven roundings counted; "
+            "coordinates Bounded19; weight in [0,1] derived); segment_length_err_float32 — the booked f32 length of a segment squared is within a factor 1 ± 3·2^-22 of the exact squared chord (floor E ≥ 2^-100: "
+            "segment_length_underflow_example shows the relative bound fails when x·x underflows); natural_length_err_float(_linear) — the f64 running sum is within ((1+2^-53)^(n-1) − 1) relative of the exact sum "
+            "of booked lengths; position_lipschitz_segment_float32 / position_arc_segment_float32 / chord_le_booked_float — two positions in one segment differ by at most |d−d'|·(1+2^-20) + 2·interpBound per "
+            "coordinate. PARTIAL: overflow is excluded by explicit finiteness hypotheses (result coordinates, the f64 weight, d1⊖d0), `d0 ≤ d ≤ d1` is a hypothesis (not derived from idxOfDist), and the additive "
+            "slack 2·interpBound does not shrink with |d−d'| (the true behaviour: two roundings of nearby weights can land on different f32 values)",
         "position_at_zero_first / position_at_one_last / position_at_vertex": "proved in exact arithmetic only (PosLaws: lt irreflexive/asymmetric, 0*x=0, 1*x=x, (b-a)/(b-a)=1 for a<b, x*1=x, a+(b-a)=b; instantiated on Rat) and for strictly increasing lengths with consecutive differences above EPSILON; with zero-length segments the position is the start of a coincident run (tested), in IEEE the equalities hold within 1e-6*scale (tested). PosLaws as a whole is FALSE of the driver's instances — kernel-checked: Rosu.IeeeFalse.posLaws_float_false (0 · NaN is NaN; Props/IeeeFalse.lean, audited under C02) — so these vertex-position theorems are vacuous on IEEE",
         "idxOfDist_hit / bsLoop_hit": "the generic forms take PosLaws but use only its order fields lt_irrefl / lt_asymm, which ARE theorems of IEEE `<` (Props/C19Ieee.lean; Lean 4.33's Float is a structure over the logical model Float.Model and `<` reduces in the kernel; Lemmas/FloatModelCompare.lean: FMO.lt_irrefl, FMO.lt_asymm): posLaws_order_float, and bsLoop_hit_ieee / idxOfDist_hit_ieee re-proved for every scalar with IEEE comparisons, idxOfDist_hit_float — on strictly increasing cumulative lengths idx_of_dist finds the index of an exact hit, for IEEE doubles, no hypothesis about the arithmetic (StrictSorted lengths stays a hypothesis on the curve)",
         "position_lipschitz": "proved in exact arithmetic only (ExactArith + NormLaws + the curve invariants listed in level_text; instantiated on Rat with the L1 norm on a concrete 3-vertex curve and on the reals with the Euclidean norm = the model's Pos::distance). NOT proved for IEEE floats (tested by the oracle with float slack 4e-6*scale + 1e-5); ExactArith (the operations are those of an ordered field) is not instantiated for Float and the theorem is about exact arithmetic. The hypotheses are necessary: (a) without NonDegenerate the bound is false in exact arithmetic whenever EPSILON > 0, because interpolate_vertices snaps a segment of booked length <= EPSILON to its start (a jump of up to EPSILON; argued, the counterexample is not machine-checked: path (0,0),(e,0),(1+e,0), lengths 0,e,1+e with e = EPSILON - distance e is answered with (0,0), distance e+1/2 with (e+1/2,0)) - so the old position_lipschitz_statement, kept in Props/C19.lean, is not provable as written; (b) ChordBound is an inequality: the first segment of an osu!-mode Catmull path books optimized_len on top of its chord (F12) and satisfies it; it fails only when the surplus is negative by IEEE rounding (~ -5e-7 observed) and for the NaN end point of F11; that Curve::new establishes ChordBound is proved for curves without a requested length (natLens_chord + C16 surplus_nonneg; natural_curve_lipschitz_real) and NOT for the re-projected last segment of a length-adjusted curve; StrictSorted/NonDegenerate (no zero-length or sub-EPSILON segment) stay hypotheses - they genuinely fail for duplicate vertices, where the code snaps to the start of the coincident run",
